@@ -174,11 +174,27 @@ theorem Shrinks.by_notifyCore {w : World} {n : Nat} {N : Noti} (hN : w.nots n = 
     Shrinks w (notifyCore w n N id).1 := by
   rw [notifyCore_eq]
   have hf := updateConns_fields w N
-  have h1 : Shrinks w (setN w n (updateConns w N)) :=
+  split
+  · exact Shrinks.by_setN_same hN (fun x => by rw [hf.1] at x; exact x) hf.2.2.1.symm
+  · have pf := prune_fields w (updateConns w N) (targets (updateConns w N))
+    have h1 : Shrinks w (setN w n (prune w (updateConns w N) (targets (updateConns w N)))) :=
+      Shrinks.by_setN_same hN (fun x => by rw [pf.1, hf.1] at x; exact x) (by rw [pf.2.2.1, hf.2.2.1])
+    exact h1.trans (Shrinks.by_deliver _ _ _ _)
+
+theorem Shrinks.by_notifyOneCore {w : World} {n : Nat} {N : Noti} (hN : w.nots n = some N) (slot l id : Nat) :
+    Shrinks w (notifyOneCore w n N slot l id).1 := by
+  rw [notifyOneCore_eq]
+  have hf := updateConns_fields w N
+  have h0 : Shrinks w (setN w n (updateConns w N)) :=
     Shrinks.by_setN_same hN (fun x => by rw [hf.1] at x; exact x) hf.2.2.1.symm
   split
-  · exact h1
-  · exact h1.trans (Shrinks.by_deliver _ _ _ _)
+  · exact h0
+  · split
+    · have pf := prune_fields w (updateConns w N) [l]
+      have h1 : Shrinks w (setN w n (prune w (updateConns w N) [l])) :=
+        Shrinks.by_setN_same hN (fun x => by rw [pf.1, hf.1] at x; exact x) (by rw [pf.2.2.1, hf.2.2.1])
+      exact h1.trans (Shrinks.by_deliver _ _ _ _)
+    · exact h0
 
 theorem Shrinks.by_dropEmit {w : World} {n : Nat} {N : Noti} (hN : w.nots n = some N) : Shrinks w (dropEmit w n N) := by
   unfold EventPorts.dropEmit
@@ -368,6 +384,23 @@ theorem Shrinks.by_step (w : World) (op : Op) (hop : ∀ k, op ≠ .open k) : Sh
       split
       · exact Shrinks.refl _
       · exact Shrinks.by_notifyCore hN _
+  | keys n =>
+    simp only [EventPorts.step]
+    split
+    · exact Shrinks.refl _
+    · rename_i N hN
+      split
+      · exact Shrinks.refl _
+      · have hf := updateConns_fields w N
+        exact Shrinks.by_setN_same hN (fun x => by rw [hf.1] at x; exact x) hf.2.2.1.symm
+  | notifyOne n slot l id =>
+    simp only [EventPorts.step]
+    split
+    · exact Shrinks.refl _
+    · rename_i N hN
+      split
+      · exact Shrinks.refl _
+      · exact Shrinks.by_notifyOneCore hN _ _ _
   | wait l =>
     simp only [EventPorts.step]
     split
